@@ -34,6 +34,10 @@ FRAG_FATAL = ["= 5;", "+= 3;", "++;", "bar(1;", "j = (1;", "bar(1];", ");", "== 
               "x = (int;", "foo(];", "a[1) = 2;", "] = 1;", "x = f(a, (b);", "t[1 = 2;"]
 
 
+# ... and those that are fatal even between a function header and its brace, or glued in front of the brace
+FRAG_ANYWHERE = ["bar(1;", "j = (1;", "bar(1];", "(;", "[;", "x = (int;", "foo(];", "a[1) = 2;", "x = f(a, (b);", ")", ") )", "[ 3"]
+
+
 def oracle_trace(res, name, src, tr, conforming=None):
     rp = {"kind": "trace", "name": name, "src": src}
     its = tr["iterations"]
@@ -144,6 +148,19 @@ def run(res, tier, br, model_ok=True, search=False):
             else:
                 text = "\n".join(lines[:b] + [ind + frag] + lines[b:])
             must_fatal.append((p.name, text, frag))
+        # between a header and its brace, glued in front of the brace; glued to the very last line, or after it on a
+        # line that does not end
+        heads = [b for b in range(p.body_start_line - 1, len(lines)) if lines[b].startswith("{")]
+        for b in (heads if big else heads[:1]):
+            frag = rng.choice(FRAG_ANYWHERE)
+            must_fatal.append((p.name, "\n".join(lines[:b] + [frag] + lines[b:]), frag))
+            frag = rng.choice(FRAG_ANYWHERE)
+            must_fatal.append((p.name, "\n".join(lines[:b] + [frag + lines[b]] + lines[b + 1:]), frag))
+        for _ in range(4 if (big or p.kind == "h") else 1):
+            frag = rng.choice(FRAG_FATAL + FRAG_ANYWHERE)
+            must_fatal.append((p.name, p.text.rstrip("\n") + frag, frag))
+            frag = rng.choice(FRAG_FATAL + FRAG_ANYWHERE)
+            must_fatal.append((p.name, p.text.rstrip("\n") + " " + frag + "\n", frag))
     allc = cases + frag_cases
     reqs, metas = [], []
     for name, src, conf in allc:
